@@ -371,7 +371,7 @@ def P23(m, R):
 
 
 # ----------------------------------------------------------------------------------------------------------------------
-@rule('P16', 'cache-consistency: in valid / parsable the memo attribute, when defined at a return, equals the returned value', floor=6)
+@rule('P16', 'cache-consistency: in valid / parsable the memo attribute, when defined at a return, equals the returned value', floor=4)
 def P16(m, R):
     for pname in ('valid', 'parsable'):
         f = m.fn('AnsiSetting.' + pname)
